@@ -97,9 +97,72 @@ def _x02_job(job):
     return e
 
 
+def _x03_job(job):
+    """A session without a board list: the server deals 100 random boards.  The
+    boards are reconstructed from the log and the session is then validated
+    like any other (what was logged must be what was sent and played)."""
+    import json as _json
+    from . import table
+    from .session import run_session
+    tid, cfg = job
+    cfg = dict(cfg)
+    spec = cfg['policy_spec']
+    cfg['policy'] = lambda rnd: table.make_policy(spec, rnd)
+    cfg['outdir'] = str(tlc.workdir())
+    cfg['tag'] = tid
+    cfg['record_blocks'] = False
+    cfg['max_blocks'] = 2000000
+    res = run_session(cfg)
+    boards = []
+    try:
+        doc = _json.loads(res['file'])
+        for it in doc['logs']:
+            deal = [sorted('CDHS'.index(c[0]) * 13 + '23456789TJQKA'.index(c[1]) for c in it['deal'][k])
+                    for k in ('N', 'E', 'S', 'W')]
+            boards.append((deal, 'NESW'.index(it['dealer']),
+                           ['None', 'NS', 'EW', 'Both'].index(it['vulnerability']), it['board_id'], None))
+    except Exception:  # noqa
+        pass
+    cfg['boards'] = boards or [([[], [], [], []], 0, 0, 'unreadable', None)]
+    e = table.session_event(tid, cfg, res, 'normal', None)
+    e['nboards'] = len(boards)
+    e['ids_ok'] = [b[3] for b in boards] == [str(k) for k in range(1, 101)]
+    return e
+
+
+def run_x03(pid: str, tier: str) -> int:
+    from . import core, table
+    from .core import rng, pmap
+    core.EVIDENCE = VERIF / 'evidence_extra'
+    chk = Check(pid, tier)
+    chk.rule = 'a case is one session of 100 boards dealt by the server itself'
+    r = rng('x03')
+    jobs = []
+    for q in range(3 if tier == 'quick' else 24):
+        played = set(r.sample(range(1, 101), 2 if tier == 'quick' else 6))
+        styles = [{'auction': 'weak', 'passout_boards': set(range(1, 101)) - played}] * 4
+        jobs.append((f'r{q}', {'boards': None, 'seed': r.randrange(1 << 30), 'styles': styles,
+                               'vary': q % 2 == 0, 'policy_spec': table.POLICIES[q % 5]}))
+    events = pmap(_x03_job, jobs)
+    for e in events:
+        chk.count(e['tid'])
+        if e['nboards'] != 100 or not e['ids_ok']:
+            chk.violation(f'randomboards:count-or-ids:{e["nboards"]}',
+                          f'session {e["tid"]}: {e["nboards"]} boards logged, ids 1..100: {e["ids_ok"]}',
+                          {'kind': 'random-boards', 'nboards': e['nboards']})
+    chk.sample({'tid': events[0]['tid'], 'nboards': events[0]['nboards'],
+                'blocks': events[0]['info']['nblocks']})
+    rejects = validate_traces(chk, 'TableTrace', events, '100 random boards: real server vs TableObs',
+                              shards=8, heap='6g')
+    report_rejects(chk, rejects, 'randomboards', key_of=lambda x: f'randomboards:{x.clause}'[:160])
+    return chk.finish()
+
+
 def run(pid: str, tier: str) -> int:
     if pid == 'X02':
         return run_x02(pid, tier)
+    if pid == 'X03':
+        return run_x03(pid, tier)
     os.environ['VERIF_EVIDENCE_DIR'] = str(VERIF / 'evidence_extra')
     from . import core
     core.EVIDENCE = VERIF / 'evidence_extra'
